@@ -281,7 +281,22 @@ def r1b_text_parsers(ctx) -> None:
                 continue
             n += 1
             loc = f"{f.module.relpath}:{c.lineno}"
-            if f.qual == "sigma.conditions.ConditionSelector.resolve_referenced_detections" and unparse(c.args[0]).replace('"', "'") == "self.pattern.replace('*', '.*')":
+            def selector_regex(e: ast.AST, depth: int = 0) -> bool:
+                """e is a constant, the selector pattern with '*' replaced by '.*', a choice between such, or a local bound to one"""
+                if isinstance(e, ast.Constant) and isinstance(e.value, str):
+                    import re as _re
+                    try:
+                        _re.compile(e.value)
+                        return True
+                    except Exception:
+                        return False
+                if isinstance(e, ast.IfExp):
+                    return selector_regex(e.body, depth) and selector_regex(e.orelse, depth)
+                if isinstance(e, ast.Name) and depth < 3:
+                    defs = [st.value for st in walk_no_nested(f.node) if isinstance(st, ast.Assign) and any(isinstance(t, ast.Name) and t.id == e.id for t in st.targets)]
+                    return bool(defs) and all(selector_regex(d, depth + 1) for d in defs)
+                return unparse(e).replace('"', "'") == "self.pattern.replace('*', '.*')"
+            if f.qual == "sigma.conditions.ConditionSelector.resolve_referenced_detections" and selector_regex(c.args[0]):
                 r.ok("C07.R1", f.qual, "re.compile of a selector pattern: its alphabet is letters, digits, '_', '-' and '*' (C02.R4), so the expression is always valid", loc)
                 continue
             missing = []
